@@ -1769,6 +1769,9 @@ class Engine:
         if isinstance(v, (tuple, list)):
             yield st, list(v)
             return
+        if isinstance(v, dict):  # iterating a dict yields its keys
+            yield st, list(v.keys())
+            return
         if isinstance(v, SV):
             ok, obj = self.unlift_const(v.t)
             if ok and isinstance(obj, (tuple, list)):
